@@ -12,6 +12,7 @@ import z3
 # deterministic budgets (resource limits, not wall clock: verdicts must not flip under load)
 RLIMIT_PROOF = 40_000_000
 RLIMIT_REFUTE = 40_000_000
+SOLVER_TIMEOUT_MS = 30_000
 FEAS_RLIMIT = 300_000
 FEAS_TIMEOUT_MS = 400            # feasibility probes only; unknown counts as feasible
 MAX_PATHS = 4000
@@ -241,7 +242,7 @@ def ctx():
 def _mk_solver(rlimit):
     s = z3.Solver()
     s.set('rlimit', rlimit)
-    s.set('timeout', 120_000)       # safety net only; the rlimit is what decides
+    s.set('timeout', SOLVER_TIMEOUT_MS)       # safety net only; the rlimit is what decides
     return s
 
 
@@ -324,6 +325,7 @@ def uf_pass(ob, lemmas, rounds=4, budget=5_000_000, limit=1200):
 
 
 P_SMALL, R_SMALL, P_BIG, R_BIG = 3_000_000, 4_000_000, 8_000_000, 6_000_000
+DEFAULT_BUDGETS = (P_SMALL, R_SMALL, 5_000_000, P_BIG, R_BIG)
 
 
 def _pass(ob, lemmas, ginst, kind, budget, interp=None):
@@ -340,13 +342,17 @@ def _pass(ob, lemmas, ginst, kind, budget, interp=None):
         for l in ginst:
             s.add(interp(l, cache))
         for h in ob.hyps:
+            if z3.is_quantifier(h):
+                continue        # candidate search only: quantified hypotheses are dropped (replay decides)
             s.add(interp(h, cache))
         s.add(interp(z3.Not(ob.goal), cache))
+        for sd in cache.get('__side__', []):
+            s.add(sd)           # validity conditions of the interpretation (e.g. bounded string length)
     r = s.check()
     return r, s
 
 
-def discharge(ob, lemmas, ground=None, want_model=True, interp=None, hints=None):
+def discharge(ob, lemmas, ground=None, want_model=True, interp=None, hints=None, budgets=None):
     """Two kinds of pass (DESIGN 3.6): *proof* with the quantified lemmas; *refutation* quantifier-free with
     ground axiom instances (gives models; with lemmas present z3 answers unknown for every false goal).
     Budgets are rlimits (deterministic).  Order: small proof, small refutation, big proof, big refutation.
@@ -356,6 +362,7 @@ def discharge(ob, lemmas, ground=None, want_model=True, interp=None, hints=None)
     ob.backend = 'z3'
     notes = []
     ginst = []
+    P_SMALL, R_SMALL, UF_B, P_BIG, R_BIG = budgets or DEFAULT_BUDGETS
     if ground is not None and lemmas:
         ginst = ground(list(ob.hyps) + [ob.goal])
     model = None
@@ -384,13 +391,13 @@ def discharge(ob, lemmas, ground=None, want_model=True, interp=None, hints=None)
                 model = s2.model()
             else:
                 note('refute', R_SMALL, r2, s2)
-        if ob.status is None and lemmas:
-            ru, su = uf_pass(ob, lemmas)
+        if ob.status is None and lemmas and UF_B:
+            ru, su = uf_pass(ob, lemmas, budget=UF_B)
             if ru == z3.unsat:
                 ob.status = 'proved'
                 ob.backend = 'z3(uf-pass)'
             else:
-                note('uf', 20_000_000, ru, su)
+                note('uf', UF_B, ru, su)
         if ob.status is None:
             r3, s3 = _pass(ob, lemmas, ginst, 'proof', P_BIG)
             if r3 == z3.unsat:
